@@ -128,9 +128,14 @@ def stored_adsorbate(name, **props):
     return ads
 
 
-def point_isotherm(pressure, loading, adsorbate="N2", temperature=77.355, loading_basis="molar", loading_unit="mol"):
+def point_isotherm(pressure, loading, adsorbate="N2", temperature=77.355, loading_basis="molar", loading_unit="mol",
+                   temperature_unit="K", pressure_mode="relative"):
+    """temperature is given in K; with temperature_unit='°C' the isotherm STORES it in Celsius, with
+    pressure_mode='relative%' it stores percentages (the analyses must see the same physical isotherm)."""
     import pygaps
+    temp = temperature if temperature_unit == "K" else temperature - 273.15
+    pres = list(pressure) if pressure_mode == "relative" else [float(x) * 100 for x in pressure]
     return pygaps.PointIsotherm(
-        pressure=list(pressure), loading=list(loading), material="verif_mat", adsorbate=adsorbate,
-        temperature=temperature, pressure_mode="relative", loading_basis=loading_basis, loading_unit=loading_unit,
+        pressure=pres, loading=list(loading), material="verif_mat", adsorbate=adsorbate,
+        temperature=temp, temperature_unit=temperature_unit, pressure_mode=pressure_mode, loading_basis=loading_basis, loading_unit=loading_unit,
         material_basis="mass", material_unit="g")
